@@ -153,7 +153,7 @@ func TestC39_InvalidBlocksRejected(t *testing.T) {
 	for _, u := range users {
 		accts = append(accts, u.Address)
 	}
-	harn.Check(t, 14, 400, func(t *rapid.T) {
+	harn.Check(t, 10, 400, func(t *rapid.T) {
 		base, err := os.MkdirTemp("", "c39-")
 		if err != nil {
 			t.Fatal(err)
@@ -305,6 +305,21 @@ func TestC39_InvalidBlocksRejected(t *testing.T) {
 		})
 		addSigMut("bookkeeper list = legit+foreign, only foreign signs", func(h *types.Header) *types.Header {
 			return sign(h, foreign, []keypair.PublicKey{bk.PublicKey, foreign.PublicKey})
+		})
+		addSigMut("bookkeepers replaced by two foreign keys that both sign", func(h *types.Header) *types.Header {
+			f2 := fix.Key(fix.KP256, 8)
+			n := cloneHeader(h)
+			n.Bookkeepers, n.SigData = nil, nil
+			n = cloneHeader(n)
+			hash := n.Hash()
+			s1, err1 := signature.Sign(foreign, hash[:])
+			s2, err2 := signature.Sign(f2, hash[:])
+			if err1 != nil || err2 != nil {
+				t.Fatal(err1, err2)
+			}
+			n.Bookkeepers = []keypair.PublicKey{foreign.PublicKey, f2.PublicKey}
+			n.SigData = [][]byte{s1, s2}
+			return n
 		})
 		addSigMut("signature of a different block reused", func(h *types.Header) *types.Header {
 			h.SigData = [][]byte{parent.SigData[0]}
